@@ -88,7 +88,7 @@ CLAIMS = {
         "the complex-capable kernels (cpcca, whitener, statistics, fractional power, rotation) is a conjugate transpose; reconstruction "
         "operands are conjugated, projection operands not, score norms have exactly one conjugated factor; the sample-count comparison "
         "raises before the cross product; stage calls, dot products, norm factors and correlation calls never mix field indices "
-        "(heterogeneous patterns cross, homogeneous do not). In the shared fit each field passes preprocessing -> PCA -> augmentation -> whitening -> algorithm in that order, the whitener being fitted on the output of the augmentation. No accessor rescales the stored scores / singular vectors in place. The whitening matrix is (X^H X / n) ** ((alpha - 1) / 2) and the stored inverse its inverse (kernel rules shared with C16).",
+        "(heterogeneous patterns cross, homogeneous do not). In the shared fit each field passes preprocessing -> PCA -> augmentation -> whitening -> algorithm in that order, the whitener being fitted on the output of the augmentation. No accessor rescales the stored scores / singular vectors in place. The whitening matrix is (X^H X / n) ** ((alpha - 1) / 2) and the stored inverse its inverse (kernel rules shared with C16). Inside every two-field function the operations applied to field 1 and to field 2 are the same multiset (sibling rule, provenance-based).",
         "note": "Necessary structural clauses only. Not decided: diagonal cross-covariance, proportionality factors, SCF sums, canonical "
         "correlations as numbers, bounds in [-1,1] as values. Trusted: numpy std default ddof=0.",
         "technique": "denominator/ddof classification, Hermitian-transpose lint over matmul chains, conjugation parity, guard dominance, field-index abstract typing",
@@ -109,7 +109,7 @@ CLAIMS = {
         "exactly the stored importance (explained variance / squared covariance); _sort_by_variance covers every entry with a mode "
         "dimension except the index; 'sorted' is reset before any result is stored, set after sorting, guards idempotence, transform "
         "re-sorts iff sorted, sorting is reachable only via _post_compute behind the compute flag; modes_sign multiplies all members of "
-        "its factor group in fit and transform; pseudo-norms use N-1. The importance the rotated modes are ordered by is computed from the rotated loadings; the inverse of the rotation matrix is transposed (output dimensions reversed); the kernels return a product with the rotation matrix as returned, not one formed before its last update. modes_sign is applied to the re-sorted projections, once on every path.",
+        "its factor group in fit and transform; pseudo-norms use N-1. The importance the rotated modes are ordered by is computed from the rotated loadings; the inverse of the rotation matrix is transposed (output dimensions reversed); the kernels return a product with the rotation matrix as returned, not one formed before its last update. modes_sign is applied to the re-sorted projections, once on every path. The cross-set rotator treats the loadings / scores of the two fields alike (sibling rule).",
         "note": "Necessary structural clauses only. Not decided: unitarity of R, conserved variance sum, Varimax criterion, reconstruction "
         "equality as numbers (the numerical core of _varimax/_promax is not analysed).",
         "technique": "def-use provenance (pairing through a helper call), typestate of a flag over CFG dominators, loop-condition exhaustiveness, sibling agreement",
